@@ -66,35 +66,49 @@ theorem hookReqs_reqs (Q : Req → Prop) (tp : Nat) (codes : List Nat) (st : St)
 
 theorem dscOnce_ans (c : Cfg) (E : Ecu) (k tp s) (st : St) : (dscOnce c E k tp s st).2 = E.g st.cur s := by
   unfold dscOnce
-  cases E.g st.cur s <;> rfl
+  cases E.g st.cur s with
+  | illegal sw => cases sw <;> rfl
+  | _ => rfl
 
 theorem dscOnce_cur (c : Cfg) (E : Ecu) (k tp s) (st : St) :
-    (dscOnce c E k tp s st).1.cur = if E.g st.cur s = .pos then s else st.cur := by
+    (dscOnce c E k tp s st).1.cur = if (E.g st.cur s).moves = true then s else st.cur := by
   unfold dscOnce
-  cases E.g st.cur s <;> simp [exchange]
+  cases E.g st.cur s with
+  | illegal sw => cases sw <;> simp [exchange, Ans.moves]
+  | _ => simp [exchange, Ans.moves]
 
 theorem dscOnce_same (c : Cfg) (E : Ecu) (k tp s) (st : St) : SameRes st (dscOnce c E k tp s st).1 := by
   unfold dscOnce
-  cases E.g st.cur s <;> exact ⟨rfl, rfl, rfl, rfl, rfl⟩
+  cases E.g st.cur s with
+  | illegal sw => cases sw <;> exact ⟨rfl, rfl, rfl, rfl, rfl⟩
+  | _ => exact ⟨rfl, rfl, rfl, rfl, rfl⟩
 
 theorem dscOnce_reqs (c : Cfg) (E : Ecu) (k tp s) (st : St) :
     ReqsGrow (fun r => r = ⟨k, s, st.cur, tp⟩) st (dscOnce c E k tp s st).1 := by
   unfold dscOnce
-  cases E.g st.cur s <;> exact exchange_reqs c k tp s _ st
+  cases E.g st.cur s with
+  | illegal sw => cases sw <;> exact exchange_reqs c k tp s _ st
+  | _ => exact exchange_reqs c k tp s _ st
 
 theorem dscHooked_ans (c : Cfg) (E : Ecu) (k tp s) (st : St) :
     (dscHooked c E k tp s st).2 = hookedAns c E st.cur s := by
   unfold dscHooked
-  cases hookedAns c E st.cur s <;> rfl
+  cases hookedAns c E st.cur s with
+  | illegal sw => cases sw <;> rfl
+  | _ => rfl
 
 theorem dscHooked_cur (c : Cfg) (E : Ecu) (k tp s) (st : St) :
-    (dscHooked c E k tp s st).1.cur = if hookedAns c E st.cur s = .pos then s else st.cur := by
+    (dscHooked c E k tp s st).1.cur = if (hookedAns c E st.cur s).moves = true then s else st.cur := by
   unfold dscHooked
-  cases hookedAns c E st.cur s <;> simp [exchange, hookReqs]
+  cases hookedAns c E st.cur s with
+  | illegal sw => cases sw <;> simp [exchange, hookReqs, Ans.moves]
+  | _ => simp [exchange, hookReqs, Ans.moves]
 
 theorem dscHooked_same (c : Cfg) (E : Ecu) (k tp s) (st : St) : SameRes st (dscHooked c E k tp s st).1 := by
   unfold dscHooked
-  cases hookedAns c E st.cur s <;> exact ⟨rfl, rfl, rfl, rfl, rfl⟩
+  cases hookedAns c E st.cur s with
+  | illegal sw => cases sw <;> exact ⟨rfl, rfl, rfl, rfl, rfl⟩
+  | _ => exact ⟨rfl, rfl, rfl, rfl, rfl⟩
 
 theorem dscHooked_reqs (c : Cfg) (E : Ecu) (k tp s) (st : St) :
     ReqsGrow (fun r => r = ⟨k, s, st.cur, tp⟩) st (dscHooked c E k tp s st).1 := by
@@ -106,12 +120,14 @@ theorem dscHooked_reqs (c : Cfg) (E : Ecu) (k tp s) (st : St) :
   | pos => rw [hh] at h1; exact h1.trans (hookReqs_reqs _ tp c.postHook _)
   | nrc n => rw [hh] at h1; exact h1
   | silent => rw [hh] at h1; exact h1
+  | illegal sw => rw [hh] at h1; cases sw <;> exact h1
 
 theorem dsc_eq (c : Cfg) (E : Ecu) (k tp s) (st : St) :
     dsc c E k tp s st =
       if (dscOnce c E k tp s st).2 = .nrc NRC_CNC ∧ c.hooks = true then
         (if (dscHooked c E k tp s (dscOnce c E k tp s st).1).2 = .pos then dscHooked c E k tp s (dscOnce c E k tp s st).1
          else if (dscHooked c E k tp s (dscOnce c E k tp s st).1).2 = .silent then dscHooked c E k tp s (dscOnce c E k tp s st).1
+         else if (dscHooked c E k tp s (dscOnce c E k tp s st).1).2.refused = true then dscHooked c E k tp s (dscOnce c E k tp s st).1
          else ((dscHooked c E k tp s (dscOnce c E k tp s st).1).1, (dscOnce c E k tp s st).2))
       else dscOnce c E k tp s st := rfl
 
@@ -121,13 +137,14 @@ theorem dsc_cases (c : Cfg) (E : Ecu) (k tp s) (st : St) :
     (E.g st.cur s = .nrc NRC_CNC ∧ (dscOnce c E k tp s st).1.cur = st.cur ∧
       (dsc c E k tp s st).1 = (dscHooked c E k tp s (dscOnce c E k tp s st).1).1 ∧
       (dsc c E k tp s st).2 = edge c E st.cur s ∧
-      (edge c E st.cur s = .pos ↔ hookedAns c E st.cur s = .pos)) := by
+      (edge c E st.cur s = .pos ↔ hookedAns c E st.cur s = .pos) ∧
+      (edge c E st.cur s).moves = (hookedAns c E st.cur s).moves) := by
   rw [dsc_eq]
   by_cases h : (dscOnce c E k tp s st).2 = .nrc NRC_CNC ∧ c.hooks = true
   · rw [if_pos h]
     right
     have ha : E.g st.cur s = .nrc NRC_CNC := by rw [← dscOnce_ans c E k tp s st]; exact h.1
-    have hc : (dscOnce c E k tp s st).1.cur = st.cur := by rw [dscOnce_cur, ha]; simp
+    have hc : (dscOnce c E k tp s st).1.cur = st.cur := by rw [dscOnce_cur, ha]; simp [Ans.moves]
     have hh := dscHooked_ans c E k tp s (dscOnce c E k tp s st).1
     rw [hc] at hh
     refine ⟨ha, hc, ?_⟩
@@ -137,20 +154,29 @@ theorem dsc_cases (c : Cfg) (E : Ecu) (k tp s) (st : St) :
       rw [hv] at hh
       have hedge : edge c E st.cur s = .pos := by unfold edge; rw [if_pos hcond, hv]
       rw [if_pos hh, hedge]
-      exact ⟨rfl, hh, Iff.rfl⟩
+      exact ⟨rfl, hh, Iff.rfl, rfl⟩
     | silent =>
       rw [hv] at hh
       have hedge : edge c E st.cur s = .silent := by unfold edge; rw [if_pos hcond, hv]
       have hne : (dscHooked c E k tp s (dscOnce c E k tp s st).1).2 ≠ .pos := by rw [hh]; intro h'; cases h'
       rw [if_neg hne, if_pos hh, hedge]
-      exact ⟨rfl, hh, ⟨fun h' => (by cases h'), fun h' => (by cases h')⟩⟩
+      exact ⟨rfl, hh, ⟨fun h' => (by cases h'), fun h' => (by cases h')⟩, rfl⟩
+    | illegal sw =>
+      rw [hv] at hh
+      have hedge : edge c E st.cur s = .illegal sw := by unfold edge; rw [if_pos hcond, hv]
+      have hne : (dscHooked c E k tp s (dscOnce c E k tp s st).1).2 ≠ .pos := by rw [hh]; intro h'; cases h'
+      have hne2 : (dscHooked c E k tp s (dscOnce c E k tp s st).1).2 ≠ .silent := by rw [hh]; intro h'; cases h'
+      have hrf : (dscHooked c E k tp s (dscOnce c E k tp s st).1).2.refused = true := by rw [hh]; rfl
+      rw [if_neg hne, if_neg hne2, if_pos hrf, hedge]
+      exact ⟨rfl, hh, ⟨fun h' => (by cases h'), fun h' => (by cases h')⟩, rfl⟩
     | nrc n =>
       rw [hv] at hh
       have hedge : edge c E st.cur s = .nrc NRC_CNC := by unfold edge; rw [if_pos hcond, hv]
       have hne : (dscHooked c E k tp s (dscOnce c E k tp s st).1).2 ≠ .pos := by rw [hh]; intro h'; cases h'
       have hne2 : (dscHooked c E k tp s (dscOnce c E k tp s st).1).2 ≠ .silent := by rw [hh]; intro h'; cases h'
-      rw [if_neg hne, if_neg hne2, hedge]
-      exact ⟨rfl, h.1, ⟨fun h' => (by cases h'), fun h' => (by cases h')⟩⟩
+      have hrf : ¬ (dscHooked c E k tp s (dscOnce c E k tp s st).1).2.refused = true := by rw [hh]; simp [Ans.refused]
+      rw [if_neg hne, if_neg hne2, if_neg hrf, hedge]
+      exact ⟨rfl, h.1, ⟨fun h' => (by cases h'), fun h' => (by cases h')⟩, rfl⟩
   · rw [if_neg h]
     left
     refine ⟨rfl, ?_⟩
@@ -161,27 +187,24 @@ theorem dsc_cases (c : Cfg) (E : Ecu) (k tp s) (st : St) :
     · rfl
 
 theorem dsc_ans (c : Cfg) (E : Ecu) (k tp s) (st : St) : (dsc c E k tp s st).2 = edge c E st.cur s := by
-  rcases dsc_cases c E k tp s st with ⟨h, he⟩ | ⟨_, _, _, h, _⟩
+  rcases dsc_cases c E k tp s st with ⟨h, he⟩ | ⟨_, _, _, h, _, _⟩
   · rw [h, he]; exact dscOnce_ans c E k tp s st
   · exact h
 
 theorem dsc_cur (c : Cfg) (E : Ecu) (k tp s) (st : St) :
-    (dsc c E k tp s st).1.cur = if edge c E st.cur s = .pos then s else st.cur := by
-  rcases dsc_cases c E k tp s st with ⟨h, he⟩ | ⟨_, hc, h1, _, hiff⟩
+    (dsc c E k tp s st).1.cur = if (edge c E st.cur s).moves = true then s else st.cur := by
+  rcases dsc_cases c E k tp s st with ⟨h, he⟩ | ⟨_, hc, h1, _, _, hm⟩
   · rw [h, he]; exact dscOnce_cur c E k tp s st
-  · rw [h1, dscHooked_cur, hc]
-    by_cases hp : hookedAns c E st.cur s = .pos
-    · rw [if_pos hp, if_pos (hiff.2 hp)]
-    · rw [if_neg hp, if_neg (fun h => hp (hiff.1 h))]
+  · rw [h1, dscHooked_cur, hc, hm]
 
 theorem dsc_same (c : Cfg) (E : Ecu) (k tp s) (st : St) : SameRes st (dsc c E k tp s st).1 := by
-  rcases dsc_cases c E k tp s st with ⟨h, _⟩ | ⟨_, _, h1, _, _⟩
+  rcases dsc_cases c E k tp s st with ⟨h, _⟩ | ⟨_, _, h1, _, _, _⟩
   · rw [h]; exact dscOnce_same c E k tp s st
   · rw [h1]; exact (dscOnce_same c E k tp s st).trans (dscHooked_same c E k tp s _)
 
 theorem dsc_reqs (c : Cfg) (E : Ecu) (k tp s) (st : St) :
     ReqsGrow (fun r => r = ⟨k, s, st.cur, tp⟩) st (dsc c E k tp s st).1 := by
-  rcases dsc_cases c E k tp s st with ⟨h, _⟩ | ⟨_, hc, h1, _, _⟩
+  rcases dsc_cases c E k tp s st with ⟨h, _⟩ | ⟨_, hc, h1, _, _, _⟩
   · rw [h]; exact dscOnce_reqs c E k tp s st
   · rw [h1]
     have h2 := dscHooked_reqs c E k tp s (dscOnce c E k tp s st).1
@@ -232,7 +255,7 @@ theorem recover_cur (c : Cfg) (E : Ecu) (tp) (σ : List Sess) (st : St)
       have hc := dsc_cur c E .recover tp s st
       rw [dsc_ans] at hp
       rw [hp] at hc
-      simp only [if_true] at hc
+      simp only [Ans.moves, if_true] at hc
       rw [hc]
       cases rest <;> simp [List.getLastD]
     · rw [if_neg hp] at h
@@ -249,7 +272,7 @@ theorem recover_ok (c : Cfg) (E : Ecu) (tp) (σ : List Sess) (st : St)
     apply ih
     have hc := dsc_cur c E .recover tp s st
     rw [h.1] at hc
-    simp only [if_true] at hc
+    simp only [Ans.moves, if_true] at hc
     rw [hc]
     exact h.2
 
@@ -258,6 +281,11 @@ theorem recover_ok (c : Cfg) (E : Ecu) (tp) (σ : List Sess) (st : St)
 theorem doReset_same (c : Cfg) (E : Ecu) (tp l) (st : St) : SameRes st (doReset c E tp l st) := by
   unfold doReset pingReqs
   cases E.rst st.cur <;> exact ⟨rfl, rfl, rfl, rfl, rfl⟩
+
+theorem doReset_crashed (c : Cfg) (E : Ecu) (tp l) (st : St) :
+    (doReset c E tp l st).crashed = (st.crashed || (E.rst st.cur).refused) := by
+  unfold doReset pingReqs
+  cases E.rst st.cur <;> simp [exchange, Ans.refused]
 
 theorem doReset_reqs (c : Cfg) (E : Ecu) (tp l) (st : St) :
     ReqsGrow (fun r => r.kind = .reset ∨ r.kind = .ping) st (doReset c E tp l st) := by
@@ -271,6 +299,7 @@ theorem doReset_reqs (c : Cfg) (E : Ecu) (tp l) (st : St) :
       rcases hr with ⟨_, h⟩ | h
       · exact Or.inr (Or.inl (by subst h; exact Or.inr rfl))
       · exact Or.inl h
+  · exact (exchange_reqs c .reset tp l _ st).mono (by intro r hr; subst hr; exact Or.inl rfl)
   · exact (exchange_reqs c .reset tp l _ st).mono (by intro r hr; subst hr; exact Or.inl rfl)
   · exact (exchange_reqs c .reset tp l _ st).mono (by intro r hr; subst hr; exact Or.inl rfl)
 
@@ -303,8 +332,10 @@ theorem prepare_none (c : Cfg) (E : Ecu) (σ : List Sess) (acc : St × Bool) (h 
   unfold prepare; rw [h]
 
 theorem prepare_some (c : Cfg) (E : Ecu) (σ : List Sess) (acc : St × Bool) {l} (h : wantsReset c = some l) :
-    prepare c E σ acc = recoverStack c E (top σ) σ (doReset c E (top σ) l acc.1) := by
-  unfold prepare; rw [h]; simp
+    prepare c E σ acc =
+      if (E.rst acc.1.cur).refused = true then (doReset c E (top σ) l acc.1, false)
+      else recoverStack c E (top σ) σ (doReset c E (top σ) l acc.1) := by
+  unfold prepare; rw [h]
 
 theorem prepare_same (c : Cfg) (E : Ecu) (σ : List Sess) (acc : St × Bool) :
     SameRes acc.1 (prepare c E σ acc).1 := by
@@ -316,7 +347,9 @@ theorem prepare_same (c : Cfg) (E : Ecu) (σ : List Sess) (acc : St × Bool) :
     · rw [if_neg h2]; exact SameRes.rfl'
   | some l =>
     rw [prepare_some _ _ _ _ h]
-    exact (doReset_same c E (top σ) l acc.1).trans (recover_same ..)
+    split
+    · exact doReset_same c E (top σ) l acc.1
+    · exact (doReset_same c E (top σ) l acc.1).trans (recover_same ..)
 
 theorem prepare_cur (c : Cfg) (E : Ecu) (σ : List Sess) (acc : St × Bool) (hne : σ ≠ [])
     (htr : acc.2 = false → acc.1.cur = top σ) (hok : (prepare c E σ acc).2 = true) :
@@ -331,7 +364,10 @@ theorem prepare_cur (c : Cfg) (E : Ecu) (σ : List Sess) (acc : St × Bool) (hne
       exact htr (by simpa using h2)
   | some l =>
     rw [prepare_some _ _ _ _ h] at hok ⊢
-    rw [recover_cur _ _ _ _ _ hok, top_eq_getLastD hne]
+    split at hok
+    · cases hok
+    · rename_i hrf
+      rw [if_neg hrf, recover_cur _ _ _ _ _ hok, top_eq_getLastD hne]
 
 theorem prepare_reqs (c : Cfg) (E : Ecu) (σ : List Sess) (acc : St × Bool) :
     ReqsGrow (fun r => r.kind = .reset ∨ r.kind = .ping ∨ (r.kind = .recover ∧ r.target ∈ σ)) acc.1
@@ -347,15 +383,23 @@ theorem prepare_reqs (c : Cfg) (E : Ecu) (σ : List Sess) (acc : St × Bool) :
     · rw [if_neg h2]; exact ReqsGrow.rfl'
   | some l =>
     rw [prepare_some _ _ _ _ h]
-    refine ((doReset_reqs c E (top σ) l acc.1).mono ?_).trans (hr _)
-    intro r hr'
-    rcases hr' with h1 | h1
-    · exact Or.inl h1
-    · exact Or.inr (Or.inl h1)
+    have hd : ReqsGrow (fun r => r.kind = .reset ∨ r.kind = .ping ∨ (r.kind = .recover ∧ r.target ∈ σ)) acc.1
+        (doReset c E (top σ) l acc.1) := by
+      refine (doReset_reqs c E (top σ) l acc.1).mono ?_
+      intro r hr'
+      rcases hr' with h1 | h1
+      · exact Or.inl h1
+      · exact Or.inr (Or.inl h1)
+    split
+    · exact hd
+    · exact hd.trans (hr _)
+
+/-- the ECU never answers the ECUReset of `--reset` with a reply the client refuses -/
+def ResetLegal (c : Cfg) (E : Ecu) : Prop := wantsReset c = none ∨ ∀ p, (E.rst p).refused = false
 
 /-- on an ECU where the stack is a valid path starting with a session that can be entered from anywhere,
     preparation never fails -/
-theorem prepare_ok (c : Cfg) (E : Ecu) (σ : List Sess) (acc : St × Bool)
+theorem prepare_ok (c : Cfg) (E : Ecu) (σ : List Sess) (acc : St × Bool) (hrl : ResetLegal c E)
     (hval : ∀ x, ValidPath (edge c E) (x :: σ)) : (prepare c E σ acc).2 = true := by
   cases h : wantsReset c with
   | none =>
@@ -365,6 +409,11 @@ theorem prepare_ok (c : Cfg) (E : Ecu) (σ : List Sess) (acc : St × Bool)
     · rw [if_neg h2]
   | some l =>
     rw [prepare_some _ _ _ _ h]
+    have hrf : ¬ (E.rst acc.1.cur).refused = true := by
+      rcases hrl with h0 | h0
+      · rw [h0] at h; cases h
+      · rw [h0]; simp
+    rw [if_neg hrf]
     exact recover_ok _ _ _ _ _ (hval _)
 
 /-- the probe is answered positively by the ECU in session `p` and is not skipped -/
@@ -377,14 +426,15 @@ theorem classify_spec (c : Cfg) (σ : List Sess) (s : Sess) (r : St × Ans) :
     q.1.aborted = r.1.aborted ∧ q.1.searched = r.1.searched ∧ q.1.cur = r.1.cur ∧ q.1.reqs = r.1.reqs ∧
     q.1.pos = r.1.pos ++ (if r.2 = .pos then [(s, σ)] else []) ∧
     q.1.found = r.1.found ++ (if r.2 = .pos ∧ (c.thorough = true ∨ s ∉ σ) then [σ ++ [s]] else []) ∧
-    (q.2 = false → r.2 ≠ .pos) := by
+    (q.2 = false → r.2.moves = false) := by
   obtain ⟨st, a⟩ := r
   cases a with
-  | silent => simp [classify]
+  | silent => simp [classify, Ans.moves]
+  | illegal sw => simp [classify]
   | nrc code =>
     by_cases hc : code = NRC_SFNS
-    · simp [classify, hc]
-    · simp [classify, hc]
+    · simp [classify, hc, Ans.moves]
+    · simp [classify, hc, Ans.moves]
   | pos =>
     by_cases ht : c.thorough = true ∨ s ∉ σ
     · simp [classify, ht]
@@ -494,7 +544,7 @@ theorem probeOne_step (c : Cfg) (E : Ecu) (σ : List Sess) (acc : St × Bool) (s
           · simp [okp, hs, hg, ht]
         · simp [okp, hg]
       · intro h2
-        rw [c3, hd_cur, if_neg (c7 h2)]
+        rw [c3, hd_cur, if_neg (by rw [c7 h2]; simp)]
 
 theorem probeFold_aborted (c : Cfg) (E : Ecu) (σ ls : List Sess) (acc : St × Bool) (h : acc.1.aborted = true) :
     ls.foldl (probeOne c E σ) acc = acc := by
